@@ -1041,6 +1041,13 @@ class Node:
                 # of a connection after taking it out of the table): there is
                 # nobody left to answer
                 waiting.pop(waiting_id, None)
+                # likewise the note on who sent the request, if it was
+                # written after the connection's notes were dropped
+                message_id = (f"{message.header.hop_by_hop_identifier}:"
+                              f"{message.header.end_to_end_identifier}")
+                noted = self._origin_waiting_answer.get(message_id)
+                if noted is not None and noted[2] == conn.ident:
+                    self._origin_waiting_answer.pop(message_id, None)
                 self.logger.warning(
                     f"{conn} has gone away, dropping request "
                     f"{hex(message.header.hop_by_hop_identifier)}")
